@@ -12,14 +12,14 @@ VARIABLES desc, term, todo, pc
 vars == <<desc, term, todo, pc>>
 
 AnyCls == <<"Dense", "Diag", "ConstDiag", "Toeplitz", "Tri", "Chol", "Root", "LowRankRoot", "Kron", "Kron3", "KronAddedDiag", "SumKron", "AddedDiag", "LRRAddedDiag",
-            "Sum", "PsdSum", "Matmul", "Mul", "ConstMul", "BlockDiag", "BlockInter", "SumBatch", "BatchRepeat", "Cat", "Interp", "Masked", "SumInterp", "MatmulTri", "User", "ConstMulBc">>
+            "Sum", "PsdSum", "Matmul", "Mul", "ConstMul", "BlockDiag", "BlockInter", "SumBatch", "BatchRepeat", "Cat", "Interp", "Masked", "SumInterp", "MatmulTri", "User", "ConstMulBc", "KernelM">>
 PsdCls == <<"Dense", "Diag", "ConstDiag", "Toeplitz", "Chol", "Root", "Kron", "KronAddedDiag", "SumKron", "AddedDiag", "LRRAddedDiag", "Sum", "PsdSum", "Mul", "ConstMul",
             "BlockDiag", "BlockInter", "BatchRepeat", "ConstMulBc">>
 Batches == << <<>>, <<2>>, <<2, 1>>, <<3, 2>> >>
 DepthOf(c) == IF c \in G_LeafClasses THEN 0 ELSE 1
 
 Init ==
-  /\ \E mode \in {"any", "psd"}, ci \in 1..30, bi \in 1..Len(Batches), dp \in {0, 1} :
+  /\ \E mode \in {"any", "psd"}, ci \in 1..31, bi \in 1..Len(Batches), dp \in {0, 1} :
        LET cls == IF mode = "any" THEN AnyCls[ci] ELSE PsdCls[ci] IN
        /\ ci <= (IF mode = "any" THEN Len(AnyCls) ELSE Len(PsdCls))
        /\ ((ci + bi + dp) % NParts = Part)
